@@ -169,7 +169,9 @@ class ExprMixin:
                     s.heap[r.ident].fields = {"__table__": list(zip(ks, vals[n_:]))}
                     out.append((s, r))
                     continue
-                out.append((s, s.alloc("dict", items=[], opaque=True)))
+                r = s.alloc("dict", items=[], opaque=True)
+                s.heap[r.ident].fields = {"__literal__": list(zip(vals[:n_], vals[n_:]))}     # what the literal holds, for d.update({k: v})
+                out.append((s, r))
             return out
         return [(st, st.alloc("dict", items=[], opaque=bool(e.keys)))]
 
@@ -451,7 +453,15 @@ class ExprMixin:
             bb = bb if bb is not None else self.int_as_bits(b)
             if ba is not None and bb is not None:
                 f = {ast.BitAnd: bv_and, ast.BitOr: bv_or, ast.BitXor: bv_xor}[type(op)]
-                return norm(f(ba, bb))
+                r_ = norm(f(ba, bb))
+                if isinstance(r_, BitV):
+                    # a mask that keeps every bit the operand can have (`byte & 0xFF`, `x | 0`) leaves the operand as it is - keep the
+                    # symbol, so that arithmetic on it stays linear
+                    if isinstance(a, Sym) and r_.key() == ba.key():
+                        return a
+                    if isinstance(b, Sym) and r_.key() == bb.key():
+                        return b
+                return r_
         if isinstance(op, (ast.LShift, ast.RShift)):
             n = const_of(b)
             ba = ba if ba is not None else self.int_as_bits(a)
